@@ -4,7 +4,7 @@
 From Coq Require Import ZArith List Bool Lia.
 From RecordUpdate Require Import RecordSet.
 Import ListNotations RecordSetNotations.
-From RV Require Import SM.Model SM.Basics.
+From RV Require Import SM.Model SM.Basics SM.Engage.
 Open Scope Z_scope.
 
 Ltac splits := repeat match goal with |- _ /\ _ => split end.
@@ -237,28 +237,36 @@ Proof.
     + rewrite Fc in Hn. congruence.
     + rewrite Fc, Hcs in Hc'. injection Hc' as <-.
       rewrite (expire_keep mc now s) by (rewrite ?Fc; auto). unfold PE, keep_sel. cbn -[Z.sub].
-      rewrite Ee. splits; auto; try lia; try discriminate; try congruence.
-      * intros s0 [= <-]. exact Hcs.
-      * intros s0 [= <-] Hr. specialize (Ht2 s Hcs Hr). lia.
-      * intros s0 Hs0. rewrite Hcs in Hs0. injection Hs0 as <-. exact Hds.
+      rewrite Ee. split; [reflexivity|]. split; [reflexivity|]. split; [lia|]. split; [intros _; lia|].
+      split; [|split].
+      * intros s0 [= <-]. split; [exact Hcs|]. intros Hr. specialize (Ht2 s Hcs Hr). lia.
+      * intros _. splits; try congruence;
+        intros s0 Hs0; rewrite Hcs in Hs0; injection Hs0 as <-; exact Hds.
+      * intros H; discriminate.
     + rewrite Fc, Hcs in Hc'. injection Hc' as <-.
       destruct Hnx as [(n & Hn & Hsn)|Hn].
       * rewrite (expire_next mc now s dc n) by auto. unfold PE. cbn -[Z.sub].
         rewrite Ee. rewrite Fd, Fst in *.
-        splits; auto; try lia; try discriminate; try congruence.
-        -- intros s0 [= <-]. reflexivity.
-        -- intros s0 [= <-]. unfold upd. rewrite Nat.eqb_refl. cbn. discriminate.
-        -- intros s0 [= <-]. eapply Hw3; eauto.
+        split; [reflexivity|]. split; [reflexivity|]. split; [lia|]. split; [intros _; lia|].
+        split; [|split].
+        -- intros s0 [= <-]. split; [reflexivity|]. unfold upd. rewrite Nat.eqb_refl. cbn. discriminate.
+        -- intros _. splits; try congruence; intros s0 [= <-]; eapply Hw3; eauto.
+        -- intros H; discriminate.
       * rewrite (expire_last mc now s dc) by auto.
         destruct (should (done sh mc)) eqn:Esd; unfold PE; cbn -[Z.sub];
           rewrite ?done_engaged, ?done_start, ?done_clk, ?done_cur, ?done_nt, ?done_sdat, ?Fd, ?Fst in *.
-        -- splits; auto; try lia; try discriminate; try congruence.
-           ++ intros s0 [= <-]. reflexivity.
-           ++ intros s0 [= <-]. unfold upd. rewrite Nat.eqb_refl. cbn. discriminate.
-           ++ intros s0 [= <-]. exact Hw2.
-           ++ intros _. exists (sh_first sh). split; [reflexivity|]. cbn. rewrite Esd. reflexivity.
-        -- splits; auto; try lia; try discriminate; try congruence.
-           left. reflexivity.
+        -- split; [reflexivity|]. split; [lia|]. split; [lia|]. split; [intros _; lia|].
+           split; [|split].
+           ++ intros s0 [= <-]. split; [reflexivity|]. unfold upd. rewrite Nat.eqb_refl. cbn. discriminate.
+           ++ intros _. split; [reflexivity|]. split; [reflexivity|]. split.
+              ** intros s0 [= <-]. exact Hw2.
+              ** intros _. exists (sh_first sh). split; [reflexivity|]. cbn. rewrite Esd. reflexivity.
+           ++ intros H; discriminate.
+        -- split; [reflexivity|]. split; [reflexivity|]. split; [lia|]. split; [intros H; discriminate|].
+           split; [|split].
+           ++ intros s0 H. discriminate.
+           ++ intros H. discriminate.
+           ++ intros _. unfold stopped, cur_idle. rewrite ?done_cur, ?done_nt. auto.
   - destruct (should m) eqn:Es.
     + (* E2: engage() was called on a stopped machine; the clock origin is latched *)
       destruct (Hc eq_refl eq_refl) as (Hnc & Hcf).
@@ -270,9 +278,12 @@ Proof.
         - apply expire_keep; [exact Hcs|]. left. destruct (Hcf s eq_refl) as [Hr _]. exact Hr.
         - apply expire_none. exact Hcs. }
       rewrite Hk. unfold PE, keep_sel. cbn -[Z.sub].
-      splits; auto; try lia; try discriminate; try congruence.
-      * intros s0 Hs0. destruct (Hcf s0 Hs0) as [Hr _]. congruence.
-      * intros s0 Hs0. destruct (Hcf s0 Hs0) as [_ Hd]. exact Hd.
+      split; [reflexivity|]. split; [reflexivity|]. split; [lia|]. split; [intros _; lia|].
+      split; [|split].
+      * intros s0 Hs0. split; [exact Hs0|]. destruct (Hcf s0 Hs0) as [Hr _]. congruence.
+      * intros _. splits; try congruence;
+        intros s0 Hs0; destruct (Hcf s0 Hs0) as [_ Hd]; exact Hd.
+      * intros H; discriminate.
     + (* E3: idle *)
       destruct (Hb eq_refl eq_refl) as (Hci & Hnn).
       assert (Hl : latch mc now = mc) by (unfold latch; rewrite Fe, Fs; reflexivity).
@@ -284,8 +295,11 @@ Proof.
         - exfalso. rewrite Fc in Hc'. destruct Hci as [Hci|(d & Hd & Hcd)]; [congruence|].
           rewrite Hcd in Hc'. injection Hc' as <-. rewrite (Hw4 d dc Hd Hlk) in Htd. discriminate. }
       rewrite Hk. unfold PE, keep_sel. cbn -[Z.sub]. rewrite Ee.
-      splits; auto; try lia; try discriminate; try congruence.
-      intros s0 Hs0 Hr. specialize (Ht2 s0 Hs0 Hr). lia.
+      split; [reflexivity|]. split; [reflexivity|]. split; [lia|]. split; [intros H; discriminate|].
+      split; [|split].
+      * intros s0 Hs0. split; [exact Hs0|]. intros Hr. specialize (Ht2 s0 Hs0 Hr). lia.
+      * intros H; discriminate.
+      * intros _. split; [|reflexivity]. split; assumption.
 Qed.
 
 (* ------------------------------------------------------------------ *)
@@ -309,12 +323,12 @@ Proof.
   destruct (kept_or_dropped x) as [HK|HD].
   - rewrite (select_kept x HK). destruct HK as (s & Hs & _).
     unfold post_select. rewrite Hs. destruct (Hsome s Hs) as [Hc Ht2].
-    splits; auto.
-    + destruct (He H) as (_ & _ & Hd & _). apply Hd, Hc.
-    + destruct (He H) as (_ & Hn & _). congruence.
-    + destruct (Hne H) as ((Hci & _) & _). destruct Hci as [Hci|(d & Hd & Hcd)]; [congruence|].
+    split; [exact Hk|]. split; [exact Htm|]. split; [exact Hnss|]. split; [exact Hst|].
+    split; [exact Hc|]. split; [|split; [|exact Ht2]].
+    + intros H. destruct (He H) as (_ & Hn & Hd & _). split; [apply Hd, Hc | congruence].
+    + intros H. destruct (Hne H) as ((Hci & Hn) & _). split; [|exact Hn].
+      destruct Hci as [Hci|(d & Hd & Hcd)]; [congruence|].
       rewrite Hc in Hcd. injection Hcd as ->. apply is_default_refl, Hd.
-    + destruct (Hne H) as ((_ & Hn) & _). exact Hn.
   - pose proof (select_dropped x HD) as Hsel. cbn zeta in Hsel.
     destruct Hsel as (Htm' & Hnss' & Hrest).
     (* the machine after the stop: not executing, stopped *)
@@ -325,12 +339,10 @@ Proof.
       - destruct (s_done x) eqn:Esd; cbn.
         + exfalso. destruct (He eq_refl) as (_ & _ & _ & Hkept).
           eapply kept_not_dropped; [apply Hkept; reflexivity | exact HD].
-        + rewrite done_engaged, done_clk, done_start. splits; auto.
-          * left. apply done_cur.
-          * apply done_nt.
-          * rewrite done_cur in H. discriminate.
-          * rewrite done_cur in H. discriminate.
-      - cbn. destruct (Hne eq_refl) as (Hs & Hsc). splits; auto. congruence. }
+        + rewrite done_engaged, done_clk, done_start. unfold stopped, cur_idle.
+          rewrite done_cur, done_nt. splits; auto. intros s H; discriminate.
+      - cbn. destruct (Hne eq_refl) as (Hs & Hsc). splits; auto.
+        intros s H. split; [reflexivity | congruence]. }
     destruct Hstop as (Hse & (Hsci & Hsn) & Hsk & Hss & Hscur).
     unfold post_select. rewrite Htm', Hnss'.
     destruct (sh_default sh) as [d|] eqn:Hd.
@@ -338,14 +350,20 @@ Proof.
       destruct (is_some_eq (cur (stop_m x)) d) eqn:Eq.
       * destruct Hrest as (-> & _). apply is_some_eq_true in Eq.
         destruct (Hscur d Eq) as [Hsame Hsx]. rewrite Hsk, Hss.
-        splits; auto; try congruence.
-        -- apply is_default_refl, Hd.
-        -- rewrite Hsame. apply (Hsome d Hsx).
+        split; [exact Hk|]. split; [exact Htm|]. split; [exact Hnss|].
+        split; [intros H; congruence|]. split; [exact Eq|].
+        split; [intros H; congruence|].
+        split; [intros _; split; [apply is_default_refl, Hd | exact Hsn]|].
+        rewrite Hsame. apply (Hsome d Hsx).
       * destruct Hrest as (-> & _). cbn -[Z.sub]. rewrite Hsk, Hss.
-        splits; auto; try congruence.
-        -- apply is_default_refl, Hd.
-        -- unfold upd. rewrite Nat.eqb_refl. cbn. discriminate.
-    + destruct Hrest as (-> & -> & _). rewrite Hsk, Hss. splits; auto.
+        split; [exact Hk|]. split; [exact Htm|]. split; [exact Hnss|].
+        split; [intros H; congruence|]. split; [reflexivity|].
+        split; [intros H; congruence|].
+        split; [intros _; split; [apply is_default_refl, Hd | exact Hsn]|].
+        unfold upd. rewrite Nat.eqb_refl. cbn. discriminate.
+    + destruct Hrest as (-> & -> & _). rewrite Hsk, Hss.
+      split; [exact Hk|]. split; [exact Htm|]. split; [exact Hnss|].
+      split; [intros H; congruence|]. split; [exact Hse|]. split; [|exact Hsn].
       destruct Hsci as [Hn|(d & Hd' & _)]; [exact Hn | congruence].
 Qed.
 
@@ -369,27 +387,30 @@ Lemma Q_next_state m n : Q m -> engaged m = true -> is_default sh n = false -> Q
 Proof.
   intros (Hr & Hs & Ht1 & Ht2) He Hd. unfold Q, running, stopped, timing.
   rewrite next_state_engaged, next_state_cur, next_state_nt, next_state_start, next_state_clk.
-  splits; auto; try congruence.
-  - intros _. exists n. auto.
-  - intros s [= <-]. rewrite next_state_ran. discriminate.
+  split; [intros _; exists n; auto|]. split; [intros H; congruence|].
+  split; [exact Ht1|]. intros s [= <-]. rewrite next_state_ran. discriminate.
 Qed.
 
 Lemma Q_done m : Q m -> Q (done sh m).
 Proof.
   intros (Hr & Hs & Ht1 & Ht2). unfold Q, running, stopped, timing, cur_idle.
-  rewrite done_engaged, done_cur, done_nt. splits; auto; try discriminate.
+  rewrite done_engaged, done_cur, done_nt.
+  split; [intros H; discriminate|]. split; [intros _; auto|].
+  split; [intros H; discriminate | intros s H; discriminate].
 Qed.
 
 Lemma Inv_next_state m n : Q m -> engaged m = true -> is_default sh n = false -> Inv (next_state m n).
 Proof.
   intros HQ He Hd. pose proof (Q_next_state m n HQ He Hd) as (Hr & Hs & Ht).
-  unfold Inv. rewrite next_state_engaged, He. splits; auto; try discriminate; apply Ht.
+  unfold Inv.
+  split; [exact Hr|]. rewrite next_state_engaged, He.
+  split; [intros H; discriminate|]. split; [intros H; discriminate | exact Ht].
 Qed.
 
 Lemma Q_restore m b : Inv m -> should m = false -> Q (m <| should := b |>).
 Proof.
-  intros (Ha & Hb & Hc & Ht) Hs. unfold Q, running, stopped, timing, cur_idle in *. cbn.
-  splits; auto; try apply Ht. all: intros He; destruct (Hb He Hs) as [H1 H2]; auto.
+  intros (Ha & Hb & Hc & Ht) Hs. unfold Q. split; [exact Ha|]. split; [|exact Ht].
+  intros He. apply Hb; assumption.
 Qed.
 
 Lemma run_actions_Q acts : forall m, Q m -> ok (snd (run_actions sh nested acts m)) ->
@@ -431,7 +452,17 @@ Qed.
 
 Lemma back_ok m now : ok (if now <? clk m then [EvBack] else []) -> clk m <= now.
 Proof.
-  destruct (Z.ltb_spec now (clk m)); [|lia]. intros H. exfalso. eapply not_ok_back, H.
+  destruct (Z.ltb_spec now (clk m)) as [Hlt|Hge]; [|lia]. intros Hb. exfalso. eapply not_ok_back, Hb.
+Qed.
+
+Lemma nocall_nonneg t : Forall (nocall_ev) t -> nonneg t.
+Proof. apply Forall_impl. intros []; cbn; tauto. Qed.
+
+Lemma select_ok_expire x : ok (s_ev (select sh x)) -> ok (s_ev x).
+Proof.
+  intros Hokx. unfold select, fallback, stop_if_engaged in Hokx.
+  repeat break_hyp Hokx; cbn in Hokx; rewrite ?deactivate_ev in Hokx;
+    repeat (apply ok_app in Hokx; destruct Hokx as [Hokx _]); exact Hokx.
 Qed.
 
 Lemma exec_step_inv m now : wf_shape -> Inv m -> ok (snd (exec_step sh body nested m now)) ->
@@ -446,9 +477,11 @@ Proof.
     apply andb_true_iff in Ee. destruct Ee as [Ee Es].
     apply negb_true_iff in Ee. apply negb_true_iff in Es.
     destruct HI as (Ha & Hb & Hc & Ht1 & Ht2). unfold Inv, running, stopped, timing, cur_idle in *. cbn.
-    splits; auto; try congruence; try (intros; destruct (Hb Ee Es); auto).
+    split; [intros H; congruence|]. split; [intros _ _; apply Hb; assumption|].
+    split; [intros _ H; congruence|]. split; [intros H; congruence|].
     intros s Hs Hr. specialize (Ht2 s Hs Hr). lia.
   - set (x := select sh (expire sh (latch (m <| clk := now |>) now) now)).
+    assert (Hxn : nonneg (s_ev x)) by (apply nocall_nonneg, select_nocall, expire_nocall).
     destruct (s_st x) as [s|] eqn:Est.
     + pose proof (enter_bk_frame sh (s_m x) s (s_nss x)) as Hf.
       pose proof (enter_bk_spec sh (s_m x) s (s_nss x)) as Hsp.
@@ -461,35 +494,66 @@ Proof.
       apply ok_app in Hok. destruct Hok as [Hback Hok]. apply back_ok in Hback.
       apply ok_app in Hok. destruct Hok as [Hokx Hok].
       apply ok_app in Hok. destruct Hok as [_ Hok]. apply ok_cons in Hok. destruct Hok as [_ Hok].
-      assert (Hokx0 : ok (s_ev (expire sh (latch (m <| clk := now |>) now) now))).
-      { unfold x, select, fallback, stop_if_engaged in Hokx.
-        repeat break_hyp Hokx; cbn in Hokx; rewrite ?deactivate_ev in Hokx;
-          repeat (apply ok_app in Hokx; destruct Hokx as [Hokx _]); exact Hokx. }
-      pose proof (select_post now _ (expire_PE m now Hwf HI Hback Hokx0)) as HP. fold x in HP.
-      destruct HP as (Hk & Htm & Hnss & Hst & HP). rewrite Est in HP.
+      assert (HP : post_select now x)
+        by (apply select_post, expire_PE; auto; apply select_ok_expire, Hokx).
+      unfold post_select in HP. rewrite Est in HP.
+      destruct HP as (Hk & Htm & Hnss & Hst & HP).
       destruct HP as (Hc & Hpe & Hpn & Hpt).
       destruct Hsp as (_ & Hran1 & Hoth & Hwas & Hnew).
+      assert (Hstm : st_start (sdat m1 s) <= s_tm x).
+      { destruct (ran (sdat (s_m x) s)) eqn:Er.
+        - destruct (Hwas eq_refl) as [-> _]. apply Hpt. reflexivity.
+        - destruct (Hnew eq_refl) as (-> & _). exact Hnss. }
       (* Q holds when the state function starts *)
       assert (HQ1 : Q (m1 <| ncall := S (ncall m1) |>)).
       { unfold Q, running, stopped, timing, cur_idle. cbn.
         rewrite Hfe, Hfc, Hfn, Hfst, Hfk, Hc.
         split; [intros He; exists s; destruct (Hpe He); auto|].
-        split; [intros He; destruct (Hpn He) as [Hd Hn]; split; [right; exists s; split; [apply is_default_true, Hd | reflexivity] | exact Hn]|].
+        split; [intros He; destruct (Hpn He) as [Hd Hn]; split;
+                [right; exists s; split; [apply is_default_true, Hd | reflexivity] | exact Hn]|].
         split; [intros He; rewrite Hk; apply Hst, He|].
-        intros s0 [= <-] _. rewrite Hk, <- Htm.
-        destruct (ran (sdat (s_m x) s)) eqn:Er.
-        - destruct (Hwas eq_refl) as [-> _]. apply Hpt, Er.
-        - destruct (Hnew eq_refl) as (-> & _). exact Hnss. }
+        intros s0 [= <-] _. rewrite Hk, <- Htm. exact Hstm. }
       destruct (Hr HQ1 Hok) as [HQ2 Hnn2].
       split.
-      * apply Q_Inv; [|reflexivity].
-        destruct HQ2 as (H1 & H2 & H3 & H4). unfold Q, running, stopped, timing, cur_idle in *. cbn.
-        splits; auto.
+      * apply Q_Inv; [|reflexivity]. exact HQ2.
       * apply nonneg_app; split; [exact Hbn|].
+        apply nonneg_app; split; [exact Hxn|].
         apply nonneg_app; split.
-        { apply Forall_forall. intros ev Hin. destruct ev; cbn; auto.
-          exfalso. pose proof (Engage_nocall_select x) as Hnc. }
-Abort.
+        { destruct (ran (sdat (s_m x) s)).
+          - destruct (Hwas eq_refl) as [_ ->]. constructor.
+          - destruct (Hnew eq_refl) as (_ & _ & ->). repeat constructor. }
+        constructor; [|exact Hnn2]. cbn. split; [lia|].
+        intros He. rewrite Hfe in He. specialize (Hst He). lia.
+    + intros Hok.
+      assert (Hok' : ok (if now <? clk m then [EvBack] else []) /\ ok (s_ev x)).
+      { destruct (s_done x); cbn [fst snd] in Hok; apply ok_app in Hok; destruct Hok as [H1 Hok];
+          apply ok_app in Hok; destruct Hok as [H2 _]; auto. }
+      destruct Hok' as [Hback Hokx]. apply back_ok in Hback.
+      assert (HP : post_select now x)
+        by (apply select_post, expire_PE; auto; apply select_ok_expire, Hokx).
+      unfold post_select in HP. rewrite Est in HP.
+      destruct HP as (Hk & Htm & Hnss & Hst & HP).
+      destruct HP as (He & Hc & Hn).
+      assert (HQ : forall mm, engaged mm = false -> cur mm = None -> nt_cur mm = None -> Inv (mm <| should := false |>)).
+      { intros mm H1 H2 H3. unfold Inv, running, stopped, timing, cur_idle. cbn. rewrite H1, H2, H3.
+        split; [intros H; discriminate|]. split; [intros _ _; auto|].
+        split; [intros _ H; discriminate|]. split; [intros H; discriminate | intros s0 H; discriminate]. }
+      destruct (s_done x); cbn [fst snd].
+      * split; [apply HQ; assumption|].
+        apply nonneg_app; split; [exact Hbn|]. apply nonneg_app; split; [exact Hxn | constructor].
+      * split; [apply HQ; [apply done_engaged | apply done_cur | apply done_nt]|].
+        apply nonneg_app; split; [exact Hbn|]. apply nonneg_app; split; [exact Hxn | repeat constructor].
+Qed.
 End Step.
+
+Theorem exec_inv fuel : forall m now, wf_shape -> Inv m -> ok (snd (exec sh body fuel m now)) ->
+  Inv (fst (exec sh body fuel m now)) /\ should (fst (exec sh body fuel m now)) = false
+  /\ nonneg (snd (exec sh body fuel m now)).
+Proof.
+  induction fuel as [|f IH]; intros m now Hwf HI; cbn [exec].
+  - cbn. intros H. exfalso. eapply not_ok_err, H.
+  - intros Hok. destruct (exec_step_inv (exec sh body f) (fun m now => IH m now Hwf) m now Hwf HI Hok) as [H1 H2].
+    split; [exact H1|]. split; [apply exec_step_should | exact H2].
+Qed.
 
 End P.
